@@ -43,3 +43,5 @@ MUTANTS.append(dict(name='alias-decision-forgets-properties', file='visit/model/
 MUTANTS.append(dict(name='oneof-filter-drops-typed-members', file='core/parsing/keywords/one_of_parser.py', expect='R2.13', old='            s.type is None\n            and not s.properties\n', new='            not s.properties\n'))
 MUTANTS.append(dict(name='ref-resolved-by-sanitised-name', file='core/parsing/schema_parser.py', expect='R2.10', old='    if ref_name in context.parsed_schemas and not context.parsed_schemas[ref_name]._max_depth_exceeded_marker:\n', new='    if NameSanitizer.sanitize_class_name(ref_name) in context.parsed_schemas and not context.parsed_schemas[ref_name]._max_depth_exceeded_marker:\n'))
 MUTANTS.append(dict(name="sanitised-key-not-tested-against-declared-names", file='core/parsing/schema_parser.py', expect="R2.14", old="            if registration_key != schema_name and registration_key in context.raw_spec_schemas:\n                registration_key = schema_name\n", new=""))
+MUTANTS.append(dict(name="registration-key-not-recorded-for-raw-name", file='core/parsing/schema_parser.py', expect="R2.15", old="            context.registered_keys_by_raw_name[schema_name] = registration_key\n", new=""))
+MUTANTS.append(dict(name="ref-lookup-bypasses-raw-name-index", file='core/parsing/schema_parser.py', expect="R2.15", old="    parsed_key = context.registered_keys_by_raw_name.get(ref_name, ref_name)\n", new="    parsed_key = ref_name\n"))
